@@ -28,13 +28,17 @@ type Site struct {
 }
 
 type Info struct {
-	PackageVars  []string `json:"package_vars"`
-	WrittenVars  []string `json:"written_vars"` // variables with at least one may-write site inside the package
-	WriteSites   []string `json:"write_sites"`
-	Sites        []Site   `json:"sites"`
-	Overlay      string   `json:"overlay"`
-	SyncImports  []string `json:"sync_imports"` // files importing sync / sync/atomic (sync is redirected to the yielding shim)
-	TaintedFuncs []string `json:"tainted_funcs"`
+	PackageVars []string `json:"package_vars"`
+	// SnapshotExcluded: package-level sync.Pool variables. A pool's representation (per-P and victim pointers)
+	// changes with the garbage collector, not with what the code does; whether pooled objects leak into results
+	// is decided by the result comparisons (ownership, retained results, interleaved == sequential).
+	SnapshotExcluded []string `json:"snapshot_excluded"`
+	WrittenVars      []string `json:"written_vars"` // variables with at least one may-write site inside the package
+	WriteSites       []string `json:"write_sites"`
+	Sites            []Site   `json:"sites"`
+	Overlay          string   `json:"overlay"`
+	SyncImports      []string `json:"sync_imports"` // files importing sync / sync/atomic (sync is redirected to the yielding shim)
+	TaintedFuncs     []string `json:"tainted_funcs"`
 }
 
 const schedPath = "github.com/woodsbury/decimal128/verifsched"
@@ -87,6 +91,10 @@ func Generate(repo, outDir, schedSrc string, allVars bool) (*Info, error) {
 	for _, n := range pkg.Scope().Names() {
 		if v, ok := pkg.Scope().Lookup(n).(*types.Var); ok {
 			pvars[v] = true
+			if strings.Contains(types.TypeString(v.Type(), nil), "sync.Pool") {
+				res.SnapshotExcluded = append(res.SnapshotExcluded, n)
+				continue
+			}
 			res.PackageVars = append(res.PackageVars, n)
 		}
 	}
